@@ -229,6 +229,8 @@ def run_c03(P, res, pl):
                     bad = 'a decoded field name has a character outside [A-Za-z_-] (lemma used by C12)'
         if bad:
             res.violations.append({'what': bad, 'input': rec()})
+        else:
+            res.xval_path('stream ' + status, lambda r: replay_for('C03', r), rec)
         if len(res.samples) < 1:
             res.samples.append({'stream': model_bytes(ctx.model(), body).decode('latin1'), 'decoded': str(show_outcomes(ctx.model(), outs))[:300]})
         res.take_stats(ctx.stats); ctx.stats.__init__()
@@ -271,6 +273,9 @@ def run_c02(P, res, pl):
             if bad:
                 res.violations.append({'what': bad, 'input': record(ctx, body, {'flav': f, 'cuts': cuts, 'cap': pl['cap'], 'check': 'segmentation'})})
                 break
+        else:
+            f, cuts = sessions[-1][0], sessions[-1][1]
+            res.xval_path('stream %d' % len(outs0), lambda r: replay_for('C02', r), lambda: record(ctx, body, {'flav': f, 'cuts': cuts, 'cap': pl['cap'], 'check': 'segmentation'}))
         if len(res.samples) < 1:
             res.samples.append({'stream': model_bytes(ctx.model(), body).decode('latin1'), 'sessions': len(sessions), 'outcomes': str(outs0)})
         res.take_stats(ctx.stats); ctx.stats.__init__()
@@ -331,6 +336,8 @@ def run_c02_prefix(P, res, pl):
         res.cls('line ' + ('ok' if full.variant == 'Ok' else full.fields[0].variant), nontrivial=full.variant == 'Ok')
         if bad:
             res.violations.append({'what': bad, 'input': {'stream': hexs(model_bytes(ctx.model(), x)), 'check': 'prefix', 'greeting': greet}})
+        else:
+            res.xval_path('line ' + full.variant, lambda r: replay_for('C02', r), lambda: {'stream': hexs(model_bytes(ctx.model(), x)), 'check': 'prefix', 'greeting': greet})
         res.take_stats(ctx.stats); ctx.stats.__init__()
 
 def as_slice_(v):
@@ -417,6 +424,8 @@ def run_c09(P, res, pl):
         res.cls('peer bytes: ' + (outs[-1].kind if outs else co.kind), nontrivial=True)
         if bad:
             res.violations.append({'what': bad, 'input': rec()})
+        else:
+            res.xval_path('peer bytes: ' + (outs[-1].kind if outs else co.kind), lambda r: replay_for('C09', r), rec)
         if len(res.samples) < 1:
             res.samples.append({'stream': model_bytes(ctx.model(), tr.stream).decode('latin1'), 'connect': co.kind, 'outcomes': str(outs), 'reads': tr.reads})
         res.take_stats(ctx.stats); ctx.stats.__init__()
@@ -463,7 +472,8 @@ def run_c10(P, res, pl):
         I = pr.interp
         body = I._body
         rec = lambda: record(ctx, body, {'flav': pl['flav'], 'cuts': getattr(I, '_cuts', []), 'cap': pl['cap'], 'check': 'eof', 'rawgreeting': t == 'greetcut',
-                                         'interrupt': getattr(I, '_intr', None)})
+                                         # (an interrupt position the run never reached is not part of the input)
+                                         'interrupt': getattr(I, '_intr', None) if (pr.kind == 'panic' or getattr(I, '_intr_hit', False)) else None})
         if pr.kind == 'panic':
             res.violations.append({'what': 'panic: ' + pr.error.msg[:100], 'input': rec()}); continue
         want, co, outs = pr.value
@@ -494,6 +504,8 @@ def run_c10(P, res, pl):
                 res.cls('cut on ' + status, nontrivial=True)
         if bad:
             res.violations.append({'what': bad, 'input': rec()})
+        else:
+            res.xval_path('cut %s %s' % (co.kind, outs[-1].kind if outs else '-'), lambda r: replay_for('C10', r), rec)
         if len(res.samples) < 1:
             res.samples.append({'stream': model_bytes(ctx.model(), body).decode('latin1'), 'outcomes': str(outs)})
         res.take_stats(ctx.stats); ctx.stats.__init__()
@@ -555,6 +567,8 @@ def run_c18(P, res, pl):
         res.cls('greeting ' + wk, nontrivial=True)
         if bad:
             res.violations.append({'what': bad, 'input': rec()})
+        else:
+            res.xval_path('greeting ' + wk, lambda r: replay_for('C18', r), rec)
         if len(res.samples) < 1:
             res.samples.append({'first_line': model_bytes(ctx.model(), g).decode('latin1'), 'connect': co.kind})
         res.take_stats(ctx.stats); ctx.stats.__init__()
